@@ -808,8 +808,8 @@ def m_duration_since(I, st, args, dty, site):
 # ---------------------------------------------------------------- formatting (total, opaque)
 
 TOTAL_OPAQUE = (
-    'core::fmt::rt::Argument::<\'_>::new_display', 'core::fmt::rt::Argument::<\'_>::new_debug', 'core::fmt::rt::Argument::<\'_>::from_usize',
-    'std::fmt::Arguments::<\'a>::new', 'std::fmt::Arguments::<\'a>::from_str', 'std::fmt::Arguments::<\'a>::new_const',
+    'core::fmt::rt::Argument::<\'_>::new_debug',
+    'std::fmt::Arguments::<\'a>::from_str', 'std::fmt::Arguments::<\'a>::new_const',
     'std::fmt::Arguments::<\'a>::new_v1', 'std::fmt::Formatter::<\'a>::write_fmt', 'std::fmt::Formatter::<\'a>::write_str',
     'std::fmt::Formatter::<\'a>::debug_struct_field1_finish', 'std::fmt::Formatter::<\'a>::debug_struct_field2_finish',
     'std::fmt::Formatter::<\'a>::debug_struct_field3_finish', 'std::fmt::Formatter::<\'a>::debug_struct_fields_finish',
@@ -1451,10 +1451,171 @@ def m_to_string(I, st, args, dty, site):
     return [(s, ('obj', oid, 'std::string::String'))]
 
 
+# ---------------------------------------------------------------- format!: symbolic text ("segments")
+# A formatted String is described by a list of pieces:  ('lit', frozenset of texts) | ('zp', vid, width, ty) zero-padded
+# decimal of an unsigned value | ('num', vid, ty) plain decimal | ('opq',) unknown text.  I.seg maps StrV.ident -> pieces.
+FMTARG = 'core::fmt::rt::Argument'
+FMTARGS = 'std::fmt::Arguments'
+
+
+@model("core::fmt::rt::Argument::<'_>::new_display", "core::fmt::rt::Argument::<'_>::from_usize")
+def m_fmt_arg(I, st, args, dty, site):
+    a = deref(I, st, args[0])
+    if a is not None and a[0] == 'obj':
+        sv = strv_of(I, st, args[0])
+        a = ('str', sv) if sv is not None else None
+    return [(st, ('s', FMTARG, (a if a is not None else ('top', None),), None))]
+
+
+@model("std::fmt::Arguments::<'a>::new")
+def m_fmt_arguments(I, st, args, dty, site):
+    t = deref(I, st, args[0])
+    a = deref(I, st, args[1]) if len(args) > 1 else None
+    return [(st, ('s', FMTARGS, (t if t is not None else ('top', None), a if a is not None else ('top', None)), None))]
+
+
+def decode_template(bs):
+    """core::fmt::Arguments template bytes -> [('lit', text) | ('ph', {flags, width, width_arg, precision, arg})] or None"""
+    out = []
+    i = 0
+    n = len(bs)
+    while True:
+        if i >= n:
+            return None
+        b = bs[i]; i += 1
+        if b == 0:
+            return out if i == n else None
+        if b < 0x80:
+            out.append(('lit', bytes(bs[i:i + b]).decode('utf-8', 'replace'))); i += b
+        elif b == 0x80:
+            ln = bs[i] | (bs[i + 1] << 8); i += 2
+            out.append(('lit', bytes(bs[i:i + ln]).decode('utf-8', 'replace'))); i += ln
+        elif b >= 0xC0:
+            ph = {'flags': None, 'width': None, 'width_arg': None, 'precision': None, 'arg': None}
+            if b & 1:
+                ph['flags'] = int.from_bytes(bytes(bs[i:i + 4]), 'little'); i += 4
+            if b & 2:
+                w = bs[i] | (bs[i + 1] << 8); i += 2
+                if b & 16:
+                    ph['width_arg'] = w
+                else:
+                    ph['width'] = w
+            if b & 4:
+                ph['precision'] = bs[i] | (bs[i + 1] << 8); i += 2
+                if b & 32:
+                    return None
+            if b & 8:
+                ph['arg'] = bs[i] | (bs[i + 1] << 8); i += 2
+            out.append(('ph', ph))
+        else:
+            return None
+
+
+def seg_of_strv(I, st, sv):
+    sg = I.seg.get(sv.ident)
+    if sg is not None:
+        return list(sg)
+    if sv.lits is not None:
+        return [('lit', frozenset(sv.lits))]
+    return [('opq',)]
+
+
+def seg_len(st, pieces):
+    lo = hi = 0
+    for p in pieces:
+        if p[0] == 'lit':
+            ls = [len(x.encode()) for x in p[1]]
+            lo += min(ls); hi += max(ls)
+        elif p[0] in ('zp', 'num'):
+            l, h = D.get_iv(st, p[1])
+            if l < 0 or h == INF:
+                return None
+            w = p[2] if p[0] == 'zp' and isinstance(p[2], int) else 1
+            lo += max(w, len(str(int(l)))); hi += max(w, len(str(int(h))))
+        else:
+            return None
+    return lo, hi
+
+
+def seg_string(I, st, pieces):
+    """a fresh StrV described by `pieces`"""
+    # merge adjacent literals
+    out = []
+    for p in pieces:
+        if p[0] == 'lit' and out and out[-1][0] == 'lit' and len(out[-1][1]) * len(p[1]) <= 64:
+            out[-1] = ('lit', frozenset(a + b for a in out[-1][1] for b in p[1]))
+        elif p[0] == 'lit' and p[1] == frozenset(['']):
+            continue
+        else:
+            out.append(p)
+    if not out:
+        out = [('lit', frozenset(['']))]
+    if len(out) == 1 and out[0][0] == 'lit':
+        lits = out[0][1]
+        ls = [len(x.encode()) for x in lits]
+        sv = StrV(D.fresh_vid(st, min(ls), max(ls)) if min(ls) != max(ls) else D.const_vid(ls[0]), lits=lits,
+                  ascii_=all(ord(c) < 128 for x in lits for c in x))
+        firsts = {x[:1] for x in lits}
+        if len(firsts) == 1 and '' not in firsts:
+            sv.first = next(iter(firsts))
+    else:
+        rng = seg_len(st, out)
+        sv = I.fresh_str(st, 'format', rng[0], rng[1]) if rng else I.fresh_str(st, 'format')
+        if all(p[0] in ('zp', 'num') or (p[0] == 'lit' and all(ord(c) < 128 for x in p[1] for c in x)) for p in out):
+            sv.ascii = True
+        if all(p[0] in ('zp', 'num') for p in out) and rng:
+            sv.digits = True
+    I.seg[sv.ident] = tuple(out)
+    return sv
+
+
 @model('std::fmt::format', 'std::fmt::format::format_inner')
 def m_format(I, st, args, dty, site):
     oid = next(I._oid)
-    st.objs[oid] = ('String', I.fresh_str(st, 'format'))
+    sv = None
+    a = args[0] if args else None
+    if a is not None and a[0] == 's' and a[1] == FMTARGS and a[2][0][0] == 'a' and a[2][1][0] == 'a':
+        bs = []
+        for b in a[2][0][1]:
+            iv = D.get_iv(st, b[1]) if b[0] == 'i' else (0, 255)
+            if iv[0] != iv[1]:
+                bs = None
+                break
+            bs.append(int(iv[0]))
+        tmpl = decode_template(bs) if bs is not None else None
+        fargs = a[2][1][1]
+        if tmpl is not None:
+            pieces = []
+            nxt = 0
+            for kind, x in tmpl:
+                if kind == 'lit':
+                    pieces.append(('lit', frozenset([x])))
+                    continue
+                idx = x['arg'] if x['arg'] is not None else nxt
+                if x['arg'] is None:
+                    nxt += 1
+                if idx >= len(fargs) or fargs[idx][0] != 's' or fargs[idx][1] != FMTARG:
+                    pieces.append(('opq',)); continue
+                v = fargs[idx][2][0]
+                width = x['width']
+                if x['width_arg'] is not None:
+                    wa = fargs[x['width_arg']] if x['width_arg'] < len(fargs) else None
+                    wv = wa[2][0] if wa is not None and wa[0] == 's' and wa[1] == FMTARG else None
+                    wiv = D.get_iv(st, wv[1]) if wv is not None and wv[0] == 'i' else None
+                    width = int(wiv[0]) if wiv is not None and wiv[0] == wiv[1] else 'unknown'
+                flags = x['flags']
+                plain = (flags is None or flags == (0x20 | (3 << 29))) and width is None and x['precision'] is None
+                zero = flags is not None and flags & (1 << 24) and (flags & ~((1 << 24) | (1 << 27))) == (0x20 | (3 << 29)) and x['precision'] is None
+                if v[0] == 'str' and plain:
+                    pieces.extend(seg_of_strv(I, st, v[1]))
+                elif v[0] == 'i' and v[2] != 'char' and plain and D.get_iv(st, v[1])[0] >= 0:
+                    pieces.append(('num', v[1], v[2]))
+                elif v[0] == 'i' and v[2] != 'char' and zero and isinstance(width, int) and D.get_iv(st, v[1])[0] >= 0:
+                    pieces.append(('zp', v[1], width, v[2]))
+                else:
+                    pieces.append(('opq',))
+            sv = seg_string(I, st, pieces)
+    st.objs[oid] = ('String', sv if sv is not None else I.fresh_str(st, 'format'))
     return [(st, ('obj', oid, 'std::string::String'))]
 
 
